@@ -8,6 +8,7 @@ import Hg.Model.WF
 import Hg.Model.Immut
 import Hg.Model.Live
 import Hg.Model.Spec
+import Hg.Model.Shape
 
 namespace Hg.Proto
 open Hg Hg.Wire
@@ -133,6 +134,16 @@ partial def build (j : Json) : Option Agg :=
     | _ => none
   | _ => none
 
+partial def shapeOf? : Json → Option Shape
+  | .arr [i, .bool c, .arr kids] => do
+      let i ← natOf? i
+      let ks ← kids.mapM shapeOf?
+      pure (.node i c ks)
+  | _ => none
+
+partial def shapeJson : Shape → Json
+  | .node i c kids => .arr [.num (i : Rat), .bool c, .arr (kids.map shapeJson)]
+
 def faultName : Fault → String
   | .typeErr => "type"
   | .userExc => "user"
@@ -239,6 +250,10 @@ def step (pool : Pool) (cmd : Json) : Pool × Json :=
       match (strOf? h).bind pool.get? with
       | some a => (pool, .bool (noBins a))
       | none => (pool, err "no handle")
+    | "$checkcross", [sh] =>
+      match shapeOf? sh with
+      | some t => let r := Shape.checkCross t; (pool, .arr [.bool r.2, shapeJson r.1])
+      | none => (pool, err "bad shape")
     | "$goodrun", [h, .arr rows] =>
       match (strOf? h).bind pool.get? with
       | some a =>
